@@ -176,6 +176,11 @@ func (p *HTTPProxy) ServeHTTP(w http.ResponseWriter, r *http.Request) {
 			if rawPath != "" || targetURL.Path == "/" {
 				rawPath = "/" + rawPath
 			}
+		} else if rawPath != "" && !strings.HasPrefix(rawPath, "/") {
+			// the rest starts with a slash which the client had encoded
+			// (/foo%2Fbar -> %2Fbar): it is data, not the root
+			targetURL.Path = "/" + targetURL.Path
+			rawPath = "/" + rawPath
 		}
 	}
 
